@@ -184,6 +184,7 @@ LEVEL_TEXT = ("Exploration by runtime observation with independent oracles: the 
               "that share no code with the library (own prefix scoping, literal denotation, container layout, schema child order), which also "
               "enforce the structural rules; their reading must equal the strict snapshot of the source, so a symmetric writer/reader mistake "
               "or a renamed key is observable.")
-LEVEL_NOTE = ("Trusted: json, xml.etree/expat and our two readers (cross-validated on the shipped corpora). Where a specification is ambiguous "
-              "(scope of a bundle identifier in PROV-JSON) the case is skipped and counted.")
+LEVEL_NOTE = ("Trusted: json, xml.etree/expat and our two readers (cross-validated on the shipped corpora). The keys of the PROV-JSON "
+              "'bundle' object are document-level names: they must resolve, to the same URI, with the document's own prefix declarations "
+              "(open finding KF-C10-1 for stand-alone bundles attached with add_bundle()).")
 DESIGN_REF = "DESIGN.md section 4.2 and section 6, C10"
